@@ -79,6 +79,8 @@ def build(desc, memo=None):
         if desc.get('cls') is None:
             raise Unbuildable('symbolic class')
         return load_class(desc['cls'])
+    if k == 'datetime' and 'v' in desc:
+        return datetime.datetime.fromisoformat(desc['v'])
     if k == 'datetime':
         tz = desc.get('tz', 'VNone')
         if tz == 'VNone':
@@ -103,6 +105,30 @@ def build(desc, memo=None):
                 object.__setattr__(o, name, build(d, memo))
             except AttributeError:
                 pass
+        return o
+    if k in ('gexpr', 'gclass'):
+        import spec.corpus as corpus
+        return eval(desc['expr'], corpus.namespace())
+    if k == 'ginst':
+        import spec.corpus as corpus
+        key = desc.get('id')
+        if key is not None and key in memo:
+            return memo[key]
+        cls = eval(desc['cls'], corpus.namespace())
+        o = object.__new__(cls)
+        if key is not None:
+            memo[key] = o
+        for name, d in desc.get('slots', {}).items():
+            object.__setattr__(o, name, build(d, memo))
+        return o
+    if k == 'gunion':
+        import spec.corpus as corpus
+        cls = eval(desc['cls'], corpus.namespace())
+        o = object.__new__(cls)
+        if 'tag' in desc:
+            object.__setattr__(o, '_tag', build(desc['tag'], memo))
+        if 'value' in desc:
+            object.__setattr__(o, '_value', build(desc['value'], memo))
         return o
     if k == 'repattern':
         import re
@@ -149,7 +175,12 @@ def describe(v, depth=0, memo=None):
     if isinstance(v, type):
         return {'k': 'class', 'cls': v.__module__ + ':' + v.__qualname__}
     if isinstance(v, datetime.datetime):
-        return {'k': 'datetime', 'v': v.isoformat()}
+        if v.tzinfo is None:
+            return {'k': 'datetime', 'tz': 'VNone', 'v': v.isoformat()}
+        return {'k': 'datetime', 'tz': 'VOther', 'utcoffset_seconds': v.tzinfo.utcoffset(v).total_seconds(),
+                'v': v.isoformat()}
+    if isinstance(v, (bytearray, memoryview, datetime.date)) or type(v) is object:
+        return {'k': 'other'}
     if type(v).__name__ == 'Pattern' and type(v).__module__ == 're':
         return {'k': 'repattern', 'pattern': v.pattern}
     try:
@@ -160,6 +191,9 @@ def describe(v, depth=0, memo=None):
             return {'k': 'nodefault'}
     except ImportError:
         pass
+    g = describe_generated(v, depth, memo)
+    if g is not None:
+        return g
     if id(v) in memo:
         return {'k': 'ref', 'n': memo[id(v)]}
     memo[id(v)] = len(memo)
@@ -178,6 +212,57 @@ def describe(v, depth=0, memo=None):
         except AttributeError:
             pass
     return {'k': 'obj', 'cls': cls.__module__ + ':' + cls.__qualname__, 'slots': slots}
+
+
+def describe_generated(v, depth, memo):
+    """objects of the generated corpus: classes, instances, validators, descriptors"""
+    mod = getattr(v if isinstance(v, type) else type(v), '__module__', '') or ''
+    if 'vcorpus_' not in mod and not (type(v).__module__ or '').startswith('stone.backends.python_rsrc'):
+        return None
+    try:
+        import spec.corpus as corpus
+        import stone.backends.python_rsrc.stone_base as bb
+        import stone.backends.python_rsrc.stone_validators as bv
+    except ImportError:
+        return None
+    if 'mods' not in corpus._state:
+        return None
+    if isinstance(v, type):
+        e = corpus.class_expr(v)
+        return {'k': 'gclass', 'expr': e} if e else None
+    if isinstance(v, bv.Validator):
+        e = corpus.validator_expr(v)
+        return {'k': 'gexpr', 'expr': e} if e else None
+    if isinstance(v, bb.Attribute):
+        for e, c in corpus.struct_classes():
+            for fname, _ in c._all_fields_:
+                if c.__dict__.get(fname) is v:
+                    return {'k': 'gexpr', 'expr': '%s.__dict__[%r]' % (e, fname)}
+        return None
+    if 'vcorpus_' not in mod:
+        return None
+    cexpr = corpus.class_expr(type(v))
+    if isinstance(v, bb.Struct):
+        slots = {}
+        for K in type(v).__mro__:
+            for sname in (K.__dict__.get('__slots__') or ()):
+                try:
+                    slots[sname] = describe(object.__getattribute__(v, sname), depth + 1, memo)
+                except AttributeError:
+                    pass
+        return {'k': 'ginst', 'cls': cexpr, 'slots': slots}
+    if isinstance(v, bb.Union):
+        d = {'k': 'gunion', 'cls': cexpr}
+        try:
+            d['tag'] = describe(v._tag, depth + 1, memo)
+        except AttributeError:
+            pass
+        try:
+            d['value'] = describe(v._value, depth + 1, memo)
+        except AttributeError:
+            pass
+        return d
+    return None
 
 
 def same(d1, d2):
